@@ -29,7 +29,7 @@ def ref_expr(I, names, c, written, rel):
 
 def ref_cases(ctx, I, spec, names, builder, text, rcases, rmetas):
     refs = H.put_refs(spec)
-    for marker, lst in sorted(H.poke_destinations(builder).items()):
+    for marker, lst in sorted(H.all_destinations(builder, names).items()):
         if marker not in refs:
             continue
         written, rel = refs[marker]
@@ -216,7 +216,7 @@ def rename_witness(ctx, m):
         ok, b = H.build(H.render(spec, n2), ctx.work, "w")
         if not ok:
             continue
-        for act, dest in H.poke_destinations(b).get(marker, []):
+        for act, dest in H.all_destinations(b, n2).get(marker, []):
             c = H.extract_ctx(act)
             if c is None or (c["names"]["framer"] != m["framer"] and ent is None):
                 continue
